@@ -61,6 +61,8 @@ def import_openhtf():
   from openhtf.util import threads
   from simkit import core
   threads.ctypes = core.CtypesFacade
+  from openhtf.util import console_output
+  console_output.CLI_QUIET = True
   return openhtf
 
 
